@@ -243,10 +243,16 @@ pub fn structured_decimals(ints: &[BigInt], scales: &[i128], pads: &[u64]) -> Ve
 /// position j.  A comparison that skips a word, a digit position, or the words beyond the shorter operand
 /// calls such a pair equal.  Gaps k: 1..=kmax and 38, 39.
 pub fn near_equal_pairs(kmax: u64, bs: &[BigInt]) -> Vec<(Dec, Dec)> {
+    let ks: Vec<u64> = (1..=kmax).chain([38, 39]).collect();
+    near_equal_pairs_at(&ks, bs)
+}
+
+/// the same family at the given gaps (far gaps: every residue of the gap modulo the word size, several whole
+/// words of shifted-out bits)
+pub fn near_equal_pairs_at(ks: &[u64], bs: &[BigInt]) -> Vec<(Dec, Dec)> {
     use num_traits::Zero;
     let mut out = vec![];
-    let ks: Vec<u64> = (1..=kmax).chain([38, 39]).collect();
-    for &k in &ks {
+    for &k in ks {
         let p10 = spec::pow10(k);
         for b in bs {
             let prod = b * &p10;
@@ -426,5 +432,18 @@ pub fn near_powers_of_ten(bits: u32) -> Vec<BigInt> {
     }
     out.sort();
     out.dedup();
+    out
+}
+
+/// near-equal pairs beyond the basic family: FAR gaps (every gap 41..=140: every residue modulo 32 and 64 with one
+/// and two whole words of shifted-out bits; around 192, 256, 320, 640) with short B, and LONG B (both operands
+/// several hundred digits, beyond any fixed-width fast path) at every gap 1..=40 and a few far ones
+pub fn near_equal_pairs_extended(seed: u64) -> Vec<(Dec, Dec)> {
+    let far: Vec<u64> = (41..=140).chain([191, 192, 193, 255, 256, 257, 320, 640]).collect();
+    let short: Vec<BigInt> = vec![BigInt::from(3), (BigInt::from(1) << 64) + 1, (BigInt::from(1) << 128) + 5];
+    let mut out = near_equal_pairs_at(&far, &short);
+    let long: Vec<BigInt> = vec![big(&format!("{}7", filler_digits(seed, 3201, 320))), big(&filler_digits(seed, 4001, 400)) << 3];
+    let ks: Vec<u64> = (1..=40).chain([45, 64, 65, 100]).collect();
+    out.extend(near_equal_pairs_at(&ks, &long));
     out
 }
